@@ -51,7 +51,13 @@ LAST_KERNELS = []
 def gen(seed, idx, tier):
   r = _rng.gen("c11", seed, idx)
   sleep = bool(r.random() < 0.2)
-  spec, rejected = scen.pick_model(seed, idx, size="s" if r.random() < 0.6 else "m", curated_p=0.25)
+  big = bool(r.random() < 0.12)  # many DOFs: kernels that split a row or a tree level over several tasks only do so above size thresholds
+  if big:
+    spec, rejected = scen.pick_model(seed, idx, features={"pile": True, "tiny": False, "plane": True, "sleep": False}, size=str(r.choice(["m", "l"])), curated_p=0.0)
+    spec["opt"]["jacobian"] = str(r.choice(["dense", "dense", "sparse"]))
+    sleep = False
+  else:
+    spec, rejected = scen.pick_model(seed, idx, size="s" if r.random() < 0.6 else "m", curated_p=0.25)
   if sleep:
     spec["opt"]["sleep"] = True
     spec["opt"]["sleep_tolerance"] = float(r.choice([0.02, 0.3]))
@@ -69,7 +75,7 @@ def gen(seed, idx, tier):
     "property": ID, "seed": seed, "idx": idx, "model": spec, "nworld": int(r.choice([1, 2, 3, 4])), "rejected_models": rejected,
     "init": {"seed": int(r.integers(1 << 30)), "pos_noise": 0.12, "vel_noise": 0.8, "act_noise": 0.3},
     "scramble": {"seed": int(r.integers(1 << 30)), "pos_noise": 0.5, "vel_noise": 3.0, "act_noise": 1.0},
-    "hist_seed": int(r.integers(1 << 30)), "probes": int(r.integers(2, 7)), "gap": int(r.integers(1, 9)),
+    "hist_seed": int(r.integers(1 << 30)), "probes": int(r.integers(1, 3)) if big else int(r.integers(2, 7)), "gap": int(r.integers(1, 9)), "big": big,
     "sched": sched, "scope": scope, "op": str(r.choice(["step", "step", "step", "forward"])),
     "alloc": [str(r.choice(["POISON", "POISON", "GARBAGE", "ZERO"])), int(r.integers(1 << 30))],
     "caps": str(r.choice(["ample", "ample", "exact"])),
